@@ -831,7 +831,7 @@ Error Assembler::_emit(InstId inst_id, const Operand_& o0, const Operand_& o1, c
     }
 
     // Grow request, happens rarely.
-    err = writer.ensure_space(this, 4);
+    err = writer.try_ensure_space(this, 4);
     if (ASMJIT_UNLIKELY(err != Error::kOk)) {
       goto Failed;
     }
@@ -5055,7 +5055,7 @@ EmitOp_Rd0_Rn5_Rm16:
 EmitOp_Multiple:
   {
     ASMJIT_ASSERT(multiple_op_count > 0);
-    err = writer.ensure_space(this, multiple_op_count * 4u);
+    err = writer.try_ensure_space(this, multiple_op_count * 4u);
     if (ASMJIT_UNLIKELY(err != Error::kOk)) {
       goto Failed;
     }
